@@ -833,7 +833,7 @@ func c08GenInput(r *verifh.Rng, t *c08Ty, sb *strings.Builder, fsAll, fa bool, p
 
 func c08Gen(r *verifh.Rng) []verifh.Section {
 	var secs []verifh.Section
-	nsec := verifh.Scale(40, 400)
+	nsec := verifh.Scale(120, 500)
 	for i := 0; i < nsec; i++ {
 		var ops []string
 		// the two confirmed defects of the pinned commit, as fixed regression lines
